@@ -65,6 +65,9 @@ func init() {
 		Variant{ID: "c05-r8-late-field-write", Prop: "C05", File: "slave_connection.go",
 			Old: "\treturn eventChan, nil\n", New: "\ts.errChan = make(chan *Error, 1)\n\treturn eventChan, nil\n",
 			Expect: "C05-R8 shared-field@errChan"},
+		Variant{ID: "c05-r11-second-sender", Prop: "C05", File: "streamer.go",
+			Old: "\tif err != nil {\n\t\treturn err.msgf(\"parseEvents fail in pos: %+v\", err)", New: "\tif err != nil {\n\t\tselect {\n\t\tcase conn.errChan <- err:\n\t\tdefault:\n\t\t}\n\t\treturn err.msgf(\"parseEvents fail in pos: %+v\", err)",
+			Expect: "C05-R11 sole-sender@"},
 		Variant{ID: "c05-r9-parser-plain-receive", Prop: "C05", File: "streamer.go",
 			Old: "\t\tcase <-ctx.Done():\n\t\t\t_log.Infof(\"parseEvents stopping early", New: "\t\tcase <-make(chan struct{}):\n\t\t\t_log.Infof(\"parseEvents stopping early",
 			Expect: "C05-R9 parser-wait"},
@@ -87,6 +90,7 @@ func runC05(a *A) {
 	c05R9(a, r)
 	// R10: the reader cannot spin in the packet decoder (retry loops) nor bypass its hand-off
 	readerForwardsAll(a, "C05-R10", r)
+	c05R11(a, r)
 }
 
 func libPkgs(w *World) []*ssa.Package { return []*ssa.Package{w.Root, w.Repl} }
@@ -1302,3 +1306,124 @@ func traceToStarter(v ssa.Value, f *ssa.Function, r *Roles, reach map[*ssa.Funct
 	}
 	return origin
 }
+
+// R11: the reader goroutine is the only sender on the reason channel. R3 accepts the reader's plain (unselected) send of
+// its exit reason because the channel has capacity 1 and the reader sends at most once per execution; that argument needs
+// the slot to be free, i.e. nobody else ever sends on it. Instances: every send statement and every send case of a
+// select, anywhere in the root package, whose channel carries *Error values. Each must lie in code that only the reader
+// goroutine executes: the goroutine's function, its closures, or a function all of whose uses are in such code.
+func c05R11(a *A, r *Roles) {
+	const rule = "C05-R11"
+	w := a.W
+	isReasonChan := func(v ssa.Value) bool {
+		if loadsField(v, r.ConnErrChan) {
+			return true
+		}
+		ch, ok := v.Type().Underlying().(*types.Chan)
+		if !ok {
+			return false
+		}
+		p, ok := ch.Elem().Underlying().(*types.Pointer)
+		return ok && namedIs(p.Elem(), rootPath, "Error")
+	}
+	funcs := w.srcFuncs(w.Root)
+	// uses of each function: the functions that call it or mention it as a value
+	users := map[*ssa.Function]map[*ssa.Function]bool{}
+	for _, f := range funcs {
+		instrs(f, func(in ssa.Instruction) {
+			var ops []*ssa.Value
+			for _, op := range in.Operands(ops) {
+				if op == nil || *op == nil {
+					continue
+				}
+				var g *ssa.Function
+				switch x := (*op).(type) {
+				case *ssa.Function:
+					g = x
+				case *ssa.MakeClosure:
+					g, _ = x.Fn.(*ssa.Function)
+				}
+				if g != nil {
+					if users[g] == nil {
+						users[g] = map[*ssa.Function]bool{}
+					}
+					users[g][f] = true
+				}
+			}
+		})
+	}
+	memo := map[*ssa.Function]int{} // 1 reader-only, 2 not, 3 in progress
+	var readerOnly func(f *ssa.Function) bool
+	readerOnly = func(f *ssa.Function) bool {
+		switch memo[f] {
+		case 1:
+			return true
+		case 2:
+			return false
+		case 3:
+			return true // a cycle adds no outside use
+		}
+		memo[f] = 3
+		res := false
+		if f == r.Reader {
+			res = true
+		} else {
+			for p := f.Parent(); p != nil; p = p.Parent() {
+				if p == r.Reader {
+					res = true
+				}
+			}
+			if !res && len(users[f]) > 0 && !ast_isExported(f.Name()) {
+				res = true
+				for u := range users[f] {
+					if u != f && !readerOnly(u) {
+						res = false
+					}
+				}
+			}
+		}
+		if res {
+			memo[f] = 1
+		} else {
+			memo[f] = 2
+		}
+		return res
+	}
+	n, inside := 0, 0
+	perFn := map[*ssa.Function]int{}
+	for _, f := range funcs {
+		instrs(f, func(in ssa.Instruction) {
+			var chans []ssa.Value
+			switch x := in.(type) {
+			case *ssa.Send:
+				chans = append(chans, x.Chan)
+			case *ssa.Select:
+				for _, st := range x.States {
+					if st.Dir == types.SendOnly {
+						chans = append(chans, st.Chan)
+					}
+				}
+			}
+			for _, ch := range chans {
+				if !isReasonChan(ch) {
+					continue
+				}
+				n++
+				perFn[f]++
+				a.touch(f)
+				key := fmt.Sprintf("sole-sender@%s#%d", fnName(f), perFn[f])
+				if readerOnly(f) {
+					inside++
+					a.hold(rule, key, w.posOf(in), "send on the reason channel in code that only the reader goroutine runs")
+				} else {
+					a.viol(rule, key, w.posOf(in), "a second party sends on the capacity-1 reason channel (%s): the reader's own send of its exit reason - accepted by R3 because the slot is free - can then block forever (goroutine and channel leak; Error() may hang or report the wrong reason)", describe(ch))
+				}
+			}
+		})
+	}
+	if inside == 0 {
+		a.undecided(rule, "sole-sender@reader", "-", "no send on the reason channel found in the reader goroutine (shape not recognised)")
+	}
+}
+
+func ast_isExported(name string) bool { return len(name) > 0 && name[0] >= 'A' && name[0] <= 'Z' }
